@@ -82,7 +82,7 @@ CLAIMS = {
    technique='runtime monitoring: a watcher per accepted request drains its result channel until quiescence; unique payload ids tie results to requests; apply stamps of the instrumented state machine give applied-before-completed; race reports with request.go frames are attributed',
    text=('Every accepted Propose / ReadIndex / config change / RequestSnapshot / QueryRaftLog is followed to quiescence (after StopShard / NodeHost.Close returned): exactly one terminal result, at most one commit notification before it, '
          'Completed carries the requester own id and follows the local apply, Dropped/Rejected proposals are never applied. Short timeouts, immediate Release and reuse, NotifyCommit on/off, leader isolation, stops and closes under load, delays at the hand-over windows. Synchronous clients whose context expires near the running completion latency, or is cancelled from inside Update when their own entry is applied, must get the result of their own payload. In every E2 workload a client waits for a result only until its replica has processed 4x the deadline in ticks (+200): a request that is never answered is reported, not waited for.'),
-   note=E2_NOTE + '; promptness of expiry is recorded, not decided (no logical tick is observable at the API)'),
+   note=E2_NOTE + '; expiry is decided in logical time: the NodeTick hook counts the ticks the accepting replica processed, a request without a terminal result after its timeout plus 300 more ticks is a violation (the slack covers the expiry granularity and, generously, the lag of the watcher goroutine); wall clocks decide nothing'),
 
  'C14': dict(engine='snapcheck', category='exploration', design='DESIGN.md section 4 C14',
    technique='runtime monitoring of the real snapshot writer / reader / validator on generated payloads around the block boundaries, with exhaustive bit flips of header, block checksums and tail and sampled payload flips, truncations and extensions of chunk streams',
@@ -135,6 +135,29 @@ HOLD = []
 for _p in HOLD:
     CLAIMS.pop(_p, None)
 
+WIRE = (' E2 wire stage: real NodeHosts on the real file system over dragonboat\'s own TCP transport on loopback behind byte-level proxies of the harness that flip bits and cut connections inside frames; '
+        'snapshot chunk streams lose / repeat chunks and get payload bytes changed before framing; snapshot images carry a ballast of several blocks and 1-2 external files derived from the data, commands carry derived padding, '
+        'all verified inside the user state machine (altered data must never reach it), plus the history oracle and the comparison of every replica with the replay of the committed log; hosts stop gracefully in this stage.')
+
+EXTRA_TEXT = {
+ 'C01': WIRE + ' E2 learner stage (single voter + non-voting replica, power loss of the voter between sending Replicate and persisting): a proposal that ended without a result must not be visible on the non-voting replica only.',
+ 'C03': ' E2 members stage: LeaderUpdated events of every host of real NodeHosts during concurrent membership changes, leader isolation and leader transfer feed a single-valued (shard, term) -> leader map.',
+ 'C04': ' E2 replay stage: power loss of a follower while it is being caught up by snapshot - at the exit of RecoverFromSnapshot, at the entry of the Sync that follows it (on-disk state machines), at the entry / exit of its own SaveSnapshot, a few milliseconds into the repair; it must restart (no panic) with everything it acknowledged.',
+ 'C07': ' E2 members stage (node level): 40-70 concurrent valid and invalid membership requests through several hosts of real NodeHosts under leader isolation / transfer / loss; the committed log is read back through QueryRaftLog, its config change entries are judged in log order by the reference of the stated rules, and the membership reported by every running replica as well as every definite request outcome must agree (entries the statement does not decide adopt the requester\'s outcome, else the case is not judged).',
+ 'C08': WIRE + ' E4 chunks stage (power loss after every receiver script): a snapshot that was finalized and announced to the node must be durable byte for byte. Power loss of the follower during catch-up by snapshot (see C04).',
+ 'C11': ' E5 twins stage: below the node, a replica that restarts from its own snapshot, installs a file snapshot or is streamed one must have been delivered exactly the committed entries (through the snapshot or through Update, never both, never neither); on-disk state machines are never handed an entry at or below the index returned by Open.',
+ 'C12': ' One NoOP session object per host is kept across restarts; directed double in-process restart of a replica (the next incarnation makes its first proposals while the previous incarnation\'s proposals are replayed slowly); expiry is decided in ticks of the accepting replica (timeout + 300 ticks).',
+ 'C13': WIRE,
+ 'C14': WIRE,
+ 'C15': WIRE + ' The chunks stage runs on a strict file system and ends every script with a power loss (finalized, announced snapshots must survive byte for byte).',
+ 'C16': ' Node level (E2 replay stage): whenever a host comes back - after a power loss at step-worker points, at call boundaries of the user state machine (snapshot save / recovery / sync) or at arbitrary moments, or after a graceful stop - the real start-up cleanup (snapshotter.processOrphans) is run on the reopened log store before the replica starts and the directory oracle is applied: only the recorded snapshot remains, complete and loadable, no temporary, flagged or unrecorded directory. E4 chunks stage: power loss after every receiver script, a finalized and announced snapshot must survive byte for byte.',
+ 'C17': ' A third of the E2 progress cases run with rate limiting (MaxInMemLogSize 8-72 KB, commands up to 1.5 KB, a slowly applying voter, bursts of writers; proposals refused with ErrSystemBusy are counted).',
+}
+
+EXTRA_ENGINE = {'C01': 'raftsim+clusterrun', 'C03': 'raftsim+clusterrun', 'C07': 'rsmcheck+raftsim+clusterrun', 'C11': 'clusterrun+rsmcheck', 'C13': 'codeccheck+rsmcheck+clusterrun',
+                'C14': 'snapcheck+clusterrun', 'C15': 'snapcheck+clusterrun', 'C16': 'rsmcheck+clusterrun+snapcheck', 'C08': 'rsmcheck+clusterrun+snapcheck'}
+
+
 def main():
     checks = []
     for p in PROPS:
@@ -147,8 +170,8 @@ def main():
             'thorough_cmd': f'./check {p} thorough',
             'evidence_file': f'/verif/evidence/{p}.json',
             'replay_cmd_template': './check --replay {path}',
-            'engine': c['engine'],
-            'level_claimed': {'category': c['category'], 'text': c['text'], 'design_ref': c['design']},
+            'engine': EXTRA_ENGINE.get(p, c['engine']),
+            'level_claimed': {'category': c['category'], 'text': c['text'] + EXTRA_TEXT.get(p, ''), 'design_ref': c['design']},
             'level_note': c['note'],
             'technique': c['technique'],
         })
@@ -171,10 +194,10 @@ def main():
         'engines': [
             {'name': 'raftsim', 'path': 'harness/raftsim, harness/cmd/raftsim', 'serves_properties': ['C01', 'C02', 'C03', 'C04', 'C06', 'C07', 'C17', 'C18'], 'kind_free_text': 'E1: deterministic single-goroutine simulation of a shard of real raft.Peer + LogReader + rsm.StateMachine replicas with global-view monitors'},
             {'name': 'codeccheck', 'path': 'harness/cmd/codeccheck', 'serves_properties': ['C13'], 'kind_free_text': 'E4: codec round-trip / size-bound / frame corruption monitor'},
-            {'name': 'clusterrun', 'path': 'harness/cluster, harness/cmd/clusterrun', 'serves_properties': ['C01', 'C02', 'C04', 'C05', 'C06', 'C08', 'C11', 'C12', 'C16', 'C17', 'C18', 'C20'], 'kind_free_text': 'E2: real NodeHosts in-process, fault injecting transport, strict in-memory FS with power-loss crashes, instrumented state machines, request watchers'},
-            {'name': 'rsmcheck', 'path': 'harness/cmd/rsmcheck', 'serves_properties': ['C05', 'C07', 'C08', 'C13', 'C16'], 'kind_free_text': 'E5: real rsm.StateMachine / snapshotter driven with synthetic streams, reference models, twins, crash enumeration'},
+            {'name': 'clusterrun', 'path': 'harness/cluster, harness/cmd/clusterrun', 'serves_properties': ['C01', 'C02', 'C03', 'C04', 'C05', 'C06', 'C07', 'C08', 'C11', 'C12', 'C13', 'C14', 'C15', 'C16', 'C17', 'C18', 'C20'], 'kind_free_text': 'E2: real NodeHosts in-process, fault injecting transport (in-process, or the real TCP transport behind corrupting proxies in the wire stage), strict in-memory FS with power-loss crashes (real FS in the wire stage), instrumented state machines, request watchers'},
+            {'name': 'rsmcheck', 'path': 'harness/cmd/rsmcheck', 'serves_properties': ['C05', 'C07', 'C08', 'C11', 'C13', 'C16'], 'kind_free_text': 'E5: real rsm.StateMachine / snapshotter driven with synthetic streams, reference models, twins, crash enumeration'},
             {'name': 'storecheck', 'path': 'harness/cmd/storecheck', 'serves_properties': ['C04', 'C09', 'C10'], 'kind_free_text': 'E3: real ILogDB implementations against a reference model, crash and error injection'},
-            {'name': 'snapcheck', 'path': 'harness/cmd/snapcheck', 'serves_properties': ['C14', 'C15'], 'kind_free_text': 'E4: snapshot file reader/writer/validator and chunk receiver monitors'},
+            {'name': 'snapcheck', 'path': 'harness/cmd/snapcheck', 'serves_properties': ['C08', 'C14', 'C15', 'C16'], 'kind_free_text': 'E4: snapshot file reader/writer/validator and chunk receiver monitors'},
             {'name': 'compcheck', 'path': 'harness/cmd/compcheck', 'serves_properties': ['C17'], 'kind_free_text': 'component monitors: server.MessageQueue against a reference delivery model'},
             {'name': 'logview', 'path': 'harness/cmd/logview', 'serves_properties': ['C19'], 'kind_free_text': 'E6: entryLog + LogReader against a reference slice'},
         ],
